@@ -121,6 +121,11 @@ func r01_6(c *Ctx) {
 			if cn == "strconv.ParseUint" {
 				base, isK := constInt(call.Call.Args[1])
 				c.check(isK && base == 10, name, P.ipos(call), "ParseUint base 10 accepts exactly ASCII digit strings", "ParseUint with a base other than 10 accepts non-decimal retry values")
+				if len(call.Call.Args) == 3 {
+					bits, isB := constInt(call.Call.Args[2])
+					c.check(isB && (bits == 0 || bits >= 63), name+":width", P.ipos(call), "the parse covers every millisecond count an int64 can hold",
+						"ParseUint with a bit size below 63 fails with a range error for valid reconnection times above 2^"+itoa(int(bits))+" ms, which are then silently ignored: the server's retry value is not honoured")
+				}
 				return
 			}
 			// otherwise a digits-only test of the same value must guard the parse
@@ -1485,6 +1490,36 @@ func r01_8(c *Ctx) {
 	}
 	if nVal < 3 {
 		c.undecided("parser.scanSegment:value", P.pos(ss.Pos()), "expected value stores for field, end-of-event and comment")
+	}
+	// with comments kept, every line whose first character is the colon is accepted as a comment, whatever
+	// its text (the encoder writes an empty comment line as ":" + line break and expects it back)
+	isKeep := func(v ssa.Value) bool {
+		_, ok := isFieldLoad(v, "parser.FieldParser", "keepComments")
+		return ok
+	}
+	kept := edgesWhereAll(ss, factBool(isKeep, true), factInt(isColonPos, 0, 0, 0))
+	if len(kept) == 0 {
+		c.undecided("parser.scanSegment:comment-always-kept", P.pos(ss.Pos()), "no branch found on which comments are kept and the colon is the first character")
+	} else {
+		var rejects ssa.Instruction
+		for _, g := range kept {
+			forward([]startPoint{atEdge(g.From, g.Idx)}, func(in ssa.Instruction) searchAction {
+				if r, ok := in.(*ssa.Return); ok && len(r.Results) == 1 {
+					for _, sv := range sources(r.Results[0]) {
+						if b, isB := constBool(sv); !isB || !b {
+							rejects = r
+						}
+					}
+				}
+				return cont
+			})
+		}
+		pos := P.pos(ss.Pos())
+		if rejects != nil {
+			pos = P.ipos(rejects)
+		}
+		c.check(rejects == nil, "parser.scanSegment:comment-always-kept", pos, "with comments kept, every line starting with a colon is accepted as a comment",
+			"with comments kept, a line starting with a colon can still be rejected (e.g. when its text is empty): UnmarshalText drops comment lines that MarshalText wrote, so the round trip loses them")
 	}
 }
 
